@@ -491,9 +491,21 @@ def slot_state(path, good=GOOD):
 
 def make_scratch():
     base = "/dev/shm" if os.path.isdir("/dev/shm") and os.access("/dev/shm", os.W_OK) else tempfile.gettempdir()
-    d = tempfile.mkdtemp(prefix="twverif-", dir=base)
+    # the run id (pid of the ./check process) lets that process remove what its pool workers leave behind: workers are
+    # terminated without running atexit handlers
+    d = tempfile.mkdtemp(prefix="twverif-%s-" % os.environ.get("TW_VERIF_RUN_ID", "x"), dir=base)
     SCRATCH_ROOTS.append(d)
     return d
+
+
+def remove_run_scratch():
+    import glob
+    rid = os.environ.get("TW_VERIF_RUN_ID")
+    if not rid:
+        return
+    base = "/dev/shm" if os.path.isdir("/dev/shm") and os.access("/dev/shm", os.W_OK) else tempfile.gettempdir()
+    for d in glob.glob(os.path.join(base, "twverif-%s-*" % rid)):
+        shutil.rmtree(d, ignore_errors=True)
 
 
 def remove_scratch(d):
